@@ -3,14 +3,20 @@ import math
 from props.common import BASE_TRUSTED
 
 PROP = 'C02'
-KERNELS = ['align', 'refract', 'reflect', 'rotate_x', 'rotate_y', 'rotate_z',
-           'std_sag', 'std_distance', 'std_normal', 'plane_distance']
+KERNELS = ['align', 'refract', 'reflect', 'rotate_x', 'rotate_y', 'rotate_z', 'translate', 'propagate',
+           'std_sag', 'std_distance', 'std_normal', 'plane_distance', 'nr_sphere', 'ea_sag', 'ea_normal',
+           'pg_sag', 'pg_normal', 'cheb_T', 'cheb_dT', 'cheb_validate', 'cheb_sag', 'cheb_normal',
+           'radial_clip', 'rr_clip', 'coat_transmit', 'coat_reflect']
 THEOREMS = ['C02_refract_unit', 'C02_refract_snell', 'C02_refract_halfspace', 'C02_reflect_unit',
             'C02_reflect_law', 'C02_rotate_x_orthogonal', 'C02_rotate_y_orthogonal',
             'C02_rotate_z_orthogonal', 'C02_rotate_x_inverse', 'C02_rotate_y_inverse',
             'C02_rotate_z_inverse', 'C02_plane_distance_sound', 'C02_plane_distance_miss',
             'C02_conic_distance_sound', 'C02_conic_distance_miss', 'C02_std_normal_unit',
-            'C02_std_normal_parallel_gradient', 'C02_std_sag_on_quadric']
+            'C02_std_normal_parallel_gradient', 'C02_std_sag_on_quadric',
+            'C02_surface_opd', 'C02_opl_is_sum', 'C02_opl_increment_n_times_t', 'C02_propagate_is_translation',
+            'C02_propagate_length', 'C02_std_sag_dx', 'C02_std_sag_dy', 'C02_std_normal_is_gradient',
+            'C02_ea_sag_is_conic_plus_poly', 'C02_ea_sag_dx', 'C02_ea_normal_is_gradient',
+            'C02_refract_tir_nonfinite', 'C02_refract_lift', 'C02_reflect_lift']
 TRUSTED_BASE = BASE_TRUSTED + [
     'modelled, not verified: material.n(w) values are inputs of the trace model (C18 covers them)',
 ]
@@ -83,8 +89,9 @@ def _lens_cases(ctx, nl, rays_per):
     cases = []
     hist = {'lenses': 0, 'build_errors': {}, 'trace_errors': {}, 'shapes': {}, 'mirrors': 0, 'tilted': 0,
             'finite_rays': 0, 'nonfinite_rays': 0}
-    for li in range(nl):
-        spec = lensgen.gen_spec(rng)
+    corp = lensgen.corpus()
+    for li in range(nl + len(corp)):
+        spec = corp[li] if li < len(corp) else lensgen.gen_spec(rng)
         try:
             o = lensgen.build(spec)
         except Exception as e:
@@ -147,6 +154,49 @@ def system_checks(ctx):
         res['samples'].append({'ray(Hx,Hy,Px,Py,w)': c['ray'], 'surfaces': [s['shape'][0] for s in c['surfs']],
                                'image_record': c['expect'][-1]})
     yield res
+    bad, n = _bundle_oracle(ctx, ctx.n(25, 300))
+    yield {'name': 'bundle-trace-oracle (rays traced together)', 'n': n, 'nontrivial': n, 'samples': [],
+           'disagreements': bad[:5]}
+
+
+def _bundle_oracle(ctx, nl):
+    """rays traced TOGETHER (the iterative intersection stops on a batch-wide test): every ray of the bundle
+    must still satisfy the property"""
+    import random, warnings, math
+    import numpy as np
+    import lensgen, oracles
+    warnings.simplefilter('ignore')
+    rng = random.Random(ctx.seed * 29 + 8)
+    out, n = [], 0
+    for li in range(nl):
+        spec = lensgen.gen_spec(rng, nsurf=rng.choice([1, 2, 3, 4]), allow=['even_asphere', 'polynomial', 'chebyshev', 'standard'])
+        try:
+            o = lensgen.build(spec)
+        except Exception:      # noqa
+            continue
+        wv = spec['wavelengths'][0][0]
+        surfs = lensgen.model_surfaces(o, wv)
+        if not any(s['shape'][0] in ('even', 'poly', 'cheb') for s in surfs):
+            continue
+        m = 13
+        Px = np.array([0.0] + [0.9 * math.cos(2 * math.pi * j / 6) * r for r in (0.5, 1.0) for j in range(6)])
+        Py = np.array([0.0] + [0.9 * math.sin(2 * math.pi * j / 6) * r for r in (0.5, 1.0) for j in range(6)])
+        Hy = rng.choice([0.0, 1.0, 0.7])
+        try:
+            o.trace_generic(np.zeros(m), np.full(m, Hy), Px.copy(), Py.copy(), wv)
+        except Exception:      # noqa
+            continue
+        sg = o.surface_group
+        cols = [sg.x, sg.y, sg.z, sg.L, sg.M, sg.N, sg.intensity, sg.opd]
+        for j in range(m):
+            recs = [[float(c[k, j]) for c in cols] for k in range(cols[0].shape[0])]
+            n += 1
+            bad = oracles.check_trace(surfs, recs)
+            if bad:
+                out.append({'spec': spec, 'ray': [0.0, Hy, float(Px[j]), float(Py[j]), wv], 'bundle_of': m,
+                            'oracle': bad[:4], 'violates_property': True})
+                break
+    return out, n
 
 
 def search(ctx, broken, disagreements):
